@@ -257,8 +257,12 @@ structure Coord where
   lastFlush : Int                    -- ns
   deriving Repr
 
-def flushUnitThreshold : Nat := 512
-def flushIntervalNs : Int := 100000000
+/-- the flush policy of the coordinator (`bisyncFrontierFlushUnitThreshold`, `bisyncFrontierFlushInterval`):
+    a tuning parameter — every statement about the coordinator holds for any value; the correspondence
+    run takes the values from the code. -/
+structure FlushPolicy where
+  units      : Nat := 512
+  intervalNs : Int := 100000000
 
 /-- `pending.Get(n)` -/
 def pendingGet (p : List Rec) (n : Int) : Option Rec := p.find? (fun r => r.seq = n)
@@ -286,13 +290,13 @@ def coordFlush (c : Coord) (now : Int) : Coord × List Req :=
      Req.saveFrontier c.frontier :: (keys.map Req.delRec ++ [Req.zrem keys]))
 
 /-- `onCommitted(record)` at time `now` -/
-def coordOnCommitted (c : Coord) (r : Rec) (now : Int) : Coord × List Req :=
+def coordOnCommitted (c : Coord) (r : Rec) (now : Int) (pol : FlushPolicy := {}) : Coord × List Req :=
   let c1 := { c with pending := c.pending.filter (fun x => x.seq ≠ r.seq) ++ [r] }
   let (c2, adv) := coordAdvance (c1.pending.length) c1
   if adv.isEmpty then (c2, [])
   else
     let c3 := { c2 with advanced := c2.advanced ++ adv }
-    if c3.advanced.length ≥ flushUnitThreshold ∨ now - c3.lastFlush ≥ flushIntervalNs
+    if c3.advanced.length ≥ pol.units ∨ now - c3.lastFlush ≥ pol.intervalNs
     then coordFlush c3 now else (c3, [])
 
 end GunYu.Frontier
